@@ -572,10 +572,19 @@ def groups(tier):
     opts = ["plain", "symmetry", "k", "ku", "two"]
     if tier == "thorough":
         opts += ["inferral", "finite", "kk", "factory2", "two-k", "finite-mixed", "inferral-symmetry"]
-    e = e2e.std_groups(tier, dbs=("base", "forest"), opts=opts, sched=False, rng=False, S3=(tier == "thorough"))
+    e = e2e.std_groups(tier, dbs=("base", "forest"), opts=opts, sched=False, rng=False, S3=False)
     for g in e:
         g["shape"]["nmax"] = 3 if tier == "quick" else 4
-        g["shape"]["max_outcomes"] = 1500 if tier == "quick" else 20000
+        g["shape"]["max_outcomes"] = 1500 if tier == "quick" else 5000
+    if tier == "thorough":
+        # three-state tables: plain pack, default database, sizes up to 3 (a full run with sizes up to 4 and 20000 outcomes per
+        # distribution did not finish in 40 minutes)
+        n3 = len(e2e.tables(3))
+        for lo in range(0, n3, 100):
+            hi = min(n3, lo + 100)
+            e.append({"name": "opt-base-plain-S3-t%d" % lo, "fn": "check_opt",
+                      "shape": {"db": "base", "opt": "plain", "S": 3, "trange": [lo, hi], "nmax": 3, "max_outcomes": 1500},
+                      "cond_timeout": 2400.0, "path_timeout": 200.0, "expect_space": hi - lo, "weight": (hi - lo) * 3})
     return gs + e
 
 
